@@ -450,6 +450,6 @@ def search(ctx):
 
 
 CLAIM = {
-    "text": "Coq theorems over a faithful Gallina model of BinaryTapeParser::parse::<ENABLE_OPTIMIZATION> (one definition with the const generic as a boolean; ParseState discriminants and LexemeId constants regenerated from the source each run): the optimised and the reference interpretation produce the same observation (tape or rejection) for ALL byte strings once the I64 id is excluded from the three id-class tests (model parameter fx), the unchanged code is refuted by a vm_compute witness (known finding B), and both interpretations only produce structurally sound tapes; model tied to the code by differential execution on exhaustive token sequences, documents, mutations and random bytes; oracles on the implementation: optimised = reference, reference = independently computed expected tape, structural checker on the real tapes; (wave 4) every accepted tape is a subsequence of the lexer's token sequence of the same bytes (theorem, unconditional) and equals it up to inserted `{}` pairs unless the only_empties branch meets an odd remainder (theorem + refuting witness, known finding L), checked on every accepted input of every stream with the real Lexer; mixed-container documents with expected tapes; used-tape chains across both entry points",
+    "text": "Coq theorems over a faithful Gallina model of BinaryTapeParser::parse::<ENABLE_OPTIMIZATION> (one definition with the const generic as a boolean; ParseState discriminants and LexemeId constants regenerated from the source each run): the optimised and the reference interpretation produce the same observation (tape or rejection) for ALL byte strings once the I64 id is excluded from the three id-class tests (model parameter fx), the unchanged code is refuted by a vm_compute witness (known finding B), and both interpretations only produce structurally sound tapes; model tied to the code by differential execution on exhaustive token sequences, documents, mutations and random bytes; oracles on the implementation: optimised = reference, reference = independently computed expected tape, structural checker on the real tapes; (wave 4) every accepted tape is a subsequence of the lexer's token sequence of the same bytes (theorem, unconditional) and equals it up to inserted `{}` pairs (theorem, unconditional since the fix for finding L: the only_empties test ignored an odd trailing token and dropped a value; the former witness is a regression example), checked on every accepted input of every stream with the real Lexer; mixed-container documents with expected tapes; used-tape chains across both entry points",
     "technique": "machine-checked proof in Coq over an executable model + model/implementation correspondence by extraction",
 }
